@@ -8,7 +8,7 @@ from av.props import simprop
 MANIFEST_ENTRY = {
     "category": "exploration",
     "technique": "hooked snapshot of the compartments right after initialisation (before the junction flush) compared with the databook quantities; exception-type oracle for refused runs; independent non-negative least-squares feasibility solve; online monitor of dynamic characteristic values at every step and offline check of reported characteristics; generated inclusion structures and shipped (corpus) models with scaled / off-by-one set-up data",
-    "text": "Generated characteristic/compartment inclusion structures (nested characteristics, denominators, determined, under- and over-determined systems, zero defaults, junction members) receive databook values that are consistent, inconsistent by 1e-9 ... 1 (straddling the 1e-6 tolerance) or imply negative compartments, with calibration factors and start years between data years. Accepted run: every initialisation quantity is reproduced by the pre-flush compartment sizes within 1e-6 per member (+1e-6), all sizes >= 0. Refused run: the exception is BadInitialization exactly, and the callers' contracts hold (calibration objective returns inf). An independent scipy NNLS solve decides whether any non-negative assignment reproduces the data; if none does the run must have been refused. Throughout each accepted run every reported characteristic equals the sum of its members over its denominator (0 below 1e-6 people), and the values the integrator feeds to parameter functions (hooked at every update_pars) equal the same sums. Shipped models (several population types, real denominators) are initialised as shipped, with all set-up quantities scaled consistently, or with one of them pushed off; generated data classes include a fraction of the whole above 1 (directly or through its calibration factor). The Characteristics sheet is written in reversed order for a third of the frameworks (characteristics used before they are defined).",
+    "text": "Generated characteristic/compartment inclusion structures (nested characteristics, denominators, determined, under- and over-determined systems, zero defaults, junction members) receive databook values that are consistent, inconsistent by 1e-9 ... 1 (straddling the 1e-6 tolerance) or imply negative compartments, with calibration factors and start years between data years. Accepted run: every initialisation quantity is reproduced by the pre-flush compartment sizes within 1e-6 per member (+1e-6), all sizes >= 0. Refused run: the exception is BadInitialization exactly, and the callers' contracts hold (calibration objective returns inf). An independent scipy NNLS solve decides whether any non-negative assignment reproduces the data; if none does the run must have been refused. Throughout each accepted run every reported characteristic equals the sum of its members over its denominator (0 below 1e-6 people), and the values the integrator feeds to parameter functions (hooked at every update_pars) equal the same sums. Shipped models (several population types, real denominators) are initialised as shipped, with all set-up quantities scaled consistently, or with one of them pushed off; generated data classes include a fraction of the whole above 1 (directly or through its calibration factor). The Characteristics sheet is written in reversed order for a third of the frameworks (characteristics used before they are defined). A fifth of the set-up quantities carry a set-up weight other than 1 (0.25, 0.5, 2, 3).",
     "note": "The converse (refused although a solution exists; possible for under-determined systems because the minimum-norm solution may be negative) is not claimed by the property and only counted.",
 }
 
